@@ -521,6 +521,12 @@ func freshSlice(f *eng.Fn, e ast.Expr, pt eng.Point, seen map[*eng.Def]bool) (bo
 		if cid == "builtin.make" {
 			return true, ""
 		}
+		// []T(nil): appending to a nil slice allocates
+		if strings.HasPrefix(cid, "conv:") && len(x.Args) == 1 {
+			if idn, ok := ast.Unparen(x.Args[0]).(*ast.Ident); ok && idn.Name == "nil" {
+				return true, ""
+			}
+		}
 		// append-style calls return their first argument's memory (or a new
 		// allocation): fresh iff the first argument is
 		if (cid == "builtin.append" || strings.HasSuffix(cid, ".Append")) && len(x.Args) > 0 {
